@@ -165,7 +165,7 @@ Lemma load_class_unfold : forall rank c body,
   bind (add_tests [] (load_tests_of body)) (fun tests =>
   bind (sequence (map snd (symbols_k fst is_class (children_of body)))) (fun loaded =>
   bind (add_suites [] (filter (fun s => negb (ls_hidden s)) loaded)) (fun subs =>
-  Ok [LSuite (class_name c) (class_desc c) rank (c_disabled c) (hidden_of (c_cond c)) (c_tags c) tests subs]))).
+  Ok [LSuite (class_name c) (class_desc c) rank (c_disabled c) (hidden_of (c_cond c)) (class_meta c) tests subs]))).
 Proof. intros. reflexivity. Qed.
 
 (* what the sub-suites of a scope are made of: every loaded sub-suite comes from loading a symbol of the body *)
@@ -229,7 +229,7 @@ Lemma load_module_wf : forall m s, load_module m = Ok s -> all_nodes node_ok s.
 Proof.
   unfold load_module. intros m s H. destruct (load_body (m_items m)) as [[tests subs]|e] eqn:Hb; simpl in H; [|discriminate].
   destruct (load_body_wf _ _ _ Hb) as [N1 [N2 [N3 [N4 [N5 W]]]]].
-  assert (Hs : all_nodes node_ok (LSuite (mod_name m) (mod_desc m) (m_rank m) false (mod_hidden m) (mod_tags m) tests subs)).
+  assert (Hs : all_nodes node_ok (LSuite (mod_name m) (mod_desc m) (m_rank m) false (mod_hidden m) (mod_meta m) tests subs)).
   { constructor; [unfold node_ok; simpl; tauto|assumption]. }
   destruct (m_suite m); [inversion H; subst; assumption|].
   destruct tests; [|inversion H; subst; assumption].
@@ -329,33 +329,162 @@ Lemma loaded_unique : forall fixed rank0 root suites, load fixed rank0 root = Ok
   Forall (all_nodes node_ok) suites /\ Forall (fun s => ls_hidden s = false) suites.
 Proof. unfold load. intros. eapply load_dir_good; eauto. Qed.
 
+(* ================================================================== dicts; what a stack of decorators DECLARES *)
+(* The @lcc.prop decorators of a symbol, listed top to bottom: the topmost decorator of a key gives its value (it is
+   applied last); the keys come in the order in which they are first set, i.e. bottom-up (declared_props_get,
+   declared_props_keys, declared_props_NoDup below say what this dict is without reference to the order of evaluation). *)
+Fixpoint declared_props (calls : list (str * str)) : pdict :=
+  match calls with [] => [] | kv :: r => dict_set (fst kv) (snd kv) (declared_props r) end.
+(* the @lcc.link decorators of a symbol, listed top to bottom: every link once per decorator, bottom-up *)
+Definition declared_links (calls : list link) : list link := rev calls.
+(* the entries of a "properties": {...} literal of a SUITE dict, in the order written: one entry per key, at the place
+   of its first occurrence, with the value of its last occurrence *)
+Definition declared_dict (entries : list (str * str)) : pdict := dict_update [] entries.
+(* the entries of a "links": [...] list of a SUITE dict: a bare "url" stands for ("url", None) *)
+Definition declared_slinks (l : list slink) : list link := map normalize_link l.
+
+Definition keys (d : pdict) : list str := map fst d.
+
+Lemma dict_set_keys : forall k v d, keys (dict_set k v d) = if mem_str k (keys d) then keys d else keys d ++ [k].
+Proof.
+  induction d as [|[k' v'] d IH]; simpl; [reflexivity|]. destruct (str_eqb k k') eqn:E; simpl; [reflexivity|].
+  unfold keys in *. rewrite IH. destruct (mem_str k (map fst d)); reflexivity.
+Qed.
+
+Lemma dict_set_NoDup : forall k v d, NoDup (keys d) -> NoDup (keys (dict_set k v d)).
+Proof.
+  intros k v d H. rewrite dict_set_keys. destruct (mem_str k (keys d)) eqn:E; [assumption|].
+  apply NoDup_snoc; [assumption|]. apply mem_str_false. assumption.
+Qed.
+
+Lemma dict_set_fresh : forall k v d, ~ In k (keys d) -> dict_set k v d = d ++ [(k, v)].
+Proof.
+  induction d as [|[k' v'] d IH]; simpl; intros H; [reflexivity|].
+  destruct (str_eqb k k') eqn:E; [apply str_eqb_eq in E; subst; tauto|]. rewrite IH; tauto.
+Qed.
+
+Lemma dict_get_set : forall k' k v d, dict_get k' (dict_set k v d) = if str_eqb k' k then Some v else dict_get k' d.
+Proof.
+  induction d as [|[k0 v0] d IH]; simpl.
+  - reflexivity.
+  - destruct (str_eqb k k0) eqn:E; simpl.
+    + apply str_eqb_eq in E. subst k0. destruct (str_eqb k' k); reflexivity.
+    + rewrite IH. destruct (str_eqb k' k0) eqn:E0; [|reflexivity].
+      destruct (str_eqb k' k) eqn:E1; [|reflexivity]. apply str_eqb_eq in E0. apply str_eqb_eq in E1. subst.
+      assert (X : str_eqb k0 k0 = true) by (apply str_eqb_eq; reflexivity). congruence.
+Qed.
+
+Lemma dict_update_NoDup : forall src d, NoDup (keys d) -> NoDup (keys (dict_update d src)).
+Proof.
+  unfold dict_update. induction src as [|[k v] src IH]; simpl; intros d H; [assumption|]. apply IH. apply dict_set_NoDup. assumption.
+Qed.
+
+(* d.update(src) on an empty d (more generally: on a d that shares no key with src) copies src, entry by entry *)
+Lemma dict_update_app : forall src d, NoDup (keys (d ++ src)) -> dict_update d src = d ++ src.
+Proof.
+  unfold dict_update. induction src as [|[k v] src IH]; simpl; intros d H; [rewrite app_nil_r; reflexivity|].
+  assert (Hk : ~ In k (keys d)).
+  { unfold keys in *. rewrite map_app in H. simpl in H. apply NoDup_remove_2 in H. rewrite in_app_iff in H. tauto. }
+  rewrite (dict_set_fresh _ _ _ Hk). rewrite IH; rewrite <- app_assoc; [reflexivity|exact H].
+Qed.
+
+Lemma dict_update_copy : forall d, NoDup (keys d) -> dict_update [] d = d.
+Proof. intros. apply dict_update_app. assumption. Qed.
+
+Lemma declared_props_NoDup : forall calls, NoDup (keys (declared_props calls)).
+Proof. induction calls as [|[k v] r IH]; simpl; [constructor|]. apply dict_set_NoDup. assumption. Qed.
+
+(* the value of a key is the one given by its topmost decorator *)
+Lemma declared_props_get : forall k calls, dict_get k (declared_props calls) = dict_get k calls.
+Proof.
+  induction calls as [|[k0 v0] r IH]; simpl; [reflexivity|]. rewrite dict_get_set, IH. reflexivity.
+Qed.
+
+Lemma declared_props_keys : forall k calls, In k (keys (declared_props calls)) <-> In k (map fst calls).
+Proof.
+  induction calls as [|[k0 v0] r IH]; simpl; [tauto|]. rewrite dict_set_keys.
+  destruct (mem_str k0 (keys (declared_props r))) eqn:E.
+  - apply mem_str_In in E. rewrite IH. split; [tauto|]. intros [H|H]; [subst; apply IH; assumption|assumption].
+  - rewrite in_app_iff. simpl. rewrite IH. tauto.
+Qed.
+
+(* the loader's computation (decorators applied bottom-up on a fresh Metadata) gives exactly that dict *)
+Lemma props_of_decorators_spec : forall calls, props_of_decorators calls = declared_props calls.
+Proof.
+  intro calls. unfold props_of_decorators, dict_update.
+  rewrite <- (fold_left_rev_right (fun (kv : str * str) (acc : pdict) => dict_set (fst kv) (snd kv) acc)).
+  rewrite rev_involutive. induction calls as [|kv r IH]; simpl; [reflexivity|]. rewrite IH. reflexivity.
+Qed.
+
+(* test.properties.update(md.properties) / suite.properties.update(md.properties) on the fresh node *)
+Lemma loaded_props_spec : forall calls, dict_update [] (props_of_decorators calls) = declared_props calls.
+Proof. intro. rewrite props_of_decorators_spec. apply dict_update_copy. apply declared_props_NoDup. Qed.
+
+Lemma declared_dict_NoDup : forall entries, NoDup (keys (declared_dict entries)).
+Proof. intro. apply dict_update_NoDup. constructor. Qed.
+
+Lemma loaded_dict_spec : forall entries, dict_update [] (dict_update [] entries) = declared_dict entries.
+Proof. intro. apply dict_update_copy. apply declared_dict_NoDup. Qed.
+
+Lemma dict_update_get : forall k src d,
+  dict_get k (dict_update d src) = match dict_get k (rev src) with Some v => Some v | None => dict_get k d end.
+Proof.
+  unfold dict_update. induction src as [|[k0 v0] src IH]; simpl; intro d; [reflexivity|].
+  rewrite IH. rewrite dict_get_set.
+  assert (G : forall a b, dict_get k (a ++ b) = match dict_get k a with Some v => Some v | None => dict_get k b end).
+  { induction a as [|[ka va] a IHa]; simpl; intro b; [reflexivity|]. destruct (str_eqb k ka); [reflexivity|apply IHa]. }
+  rewrite G. simpl. destruct (dict_get k (rev src)); [reflexivity|]. destruct (str_eqb k k0); reflexivity.
+Qed.
+
+(* the value of a key of a dict literal is the one written last *)
+Lemma declared_dict_get : forall k entries, dict_get k (declared_dict entries) = dict_get k (rev entries).
+Proof. intros. unfold declared_dict. rewrite dict_update_get. simpl. destruct (dict_get k (rev entries)); reflexivity. Qed.
+
 (* ================================================================== the specification: what a source tree DECLARES *)
-Record tinfo := { ti_name : str; ti_desc : str; ti_disabled : bool; ti_tags : list str; ti_param : option nat }.
+Record tinfo := { ti_name : str; ti_desc : str; ti_disabled : bool; ti_tags : list str; ti_props : pdict;
+                  ti_links : list link; ti_param : option nat }.
 Definition info_of (t : ltest) : tinfo :=
-  {| ti_name := lt_name t; ti_desc := lt_desc t; ti_disabled := lt_disabled t; ti_tags := lt_tags t; ti_param := lt_param t |}.
+  {| ti_name := lt_name t; ti_desc := lt_desc t; ti_disabled := lt_disabled t; ti_tags := lt_tags t; ti_props := lt_props t;
+     ti_links := lt_links t; ti_param := lt_param t |}.
+(* every test produced by a test symbol (one per parameter set) carries the tags, properties and links of the symbol *)
 Definition mk_info (d : tdecl) (x : str * str * option nat) : tinfo :=
-  {| ti_name := fst (fst x); ti_desc := snd (fst x); ti_disabled := t_disabled d; ti_tags := t_tags d; ti_param := snd x |}.
-(* what is observed of a loaded tree: (names of the enclosing suites, metadata of the test) *)
-Definition obs_of (pt : list str * ltest) : list str * tinfo := (fst pt, info_of (snd pt)).
+  {| ti_name := fst (fst x); ti_desc := snd (fst x); ti_disabled := t_disabled d; ti_tags := t_tags d;
+     ti_props := declared_props (t_props d); ti_links := declared_links (t_links d); ti_param := snd x |}.
+(* what is observed of a loaded tree: (names and metadata of the enclosing suites, metadata of the test) *)
+Definition obs_of (pt : list pnode * ltest) : list pnode * tinfo := (fst pt, info_of (snd pt)).
+
+(* the tags / properties / links a suite class, a module declare *)
+Definition declared_class_meta (c : cdecl) : meta :=
+  {| md_tags := c_tags c; md_props := declared_props (c_props c); md_links := declared_links (c_links c) |}.
+Definition declared_mod_meta (m : mdecl) : meta :=
+  match m_suite m with
+  | Some s => {| md_tags := s_tags s; md_props := declared_dict (s_props s); md_links := declared_slinks (s_links s) |}
+  | None => no_meta
+  end.
+Lemma class_meta_spec : forall c, class_meta c = declared_class_meta c.
+Proof. intro. unfold class_meta, declared_class_meta. rewrite loaded_props_spec. reflexivity. Qed.
+Lemma mod_meta_spec : forall m, mod_meta m = declared_mod_meta m.
+Proof. intro. unfold mod_meta, declared_mod_meta. destruct (m_suite m); [|reflexivity]. rewrite loaded_dict_spec. reflexivity. Qed.
 Definition nh (s : lsuite) : bool := negb (ls_hidden s).
 
 (* a later definition of the same attribute in the same scope shadows this one *)
 Definition shadowed (x : item) (later : list item) : bool := mem_str (item_attr x) (map item_attr later).
 Section Unshadowed.
-  Variable f : item -> list (list str * tinfo).
-  Fixpoint unshadowed_flat (l : list item) : list (list str * tinfo) :=
+  Variable f : item -> list (list pnode * tinfo).
+  Fixpoint unshadowed_flat (l : list item) : list (list pnode * tinfo) :=
     match l with [] => [] | x :: r => (if shadowed x r then [] else f x) ++ unshadowed_flat r end.
 End Unshadowed.
 
 (* the tests declared by one symbol, under the suite path [p]: a visible test declares one test per parameter set
-   (or itself), a visible class declares what its body declares, under p ++ [its name]; hidden symbols declare nothing *)
-Fixpoint declared_item (p : list str) (it : item) : list (list str * tinfo) :=
+   (or itself), a visible class declares what its body declares, under p ++ [its name and tags / properties / links];
+   hidden symbols declare nothing *)
+Fixpoint declared_item (p : list pnode) (it : item) : list (list pnode * tinfo) :=
   match it with
   | ITest _ d => if hidden_of (t_cond d) then [] else map (fun x => (p, mk_info d x)) (expand_names d)
   | IClass _ c body =>
-      if hidden_of (c_cond c) then [] else unshadowed_flat (declared_item (p ++ [class_name c])) body
+      if hidden_of (c_cond c) then [] else unshadowed_flat (declared_item (p ++ [(class_name c, declared_class_meta c)])) body
   end.
-Definition declared_items (p : list str) (l : list item) : list (list str * tinfo) := unshadowed_flat (declared_item p) l.
+Definition declared_items (p : list pnode) (l : list item) : list (list pnode * tinfo) := unshadowed_flat (declared_item p) l.
 
 Definition item_hidden (it : item) : bool :=
   match it with ITest _ d => hidden_of (t_cond d) | IClass _ c _ => hidden_of (c_cond c) end.
@@ -363,6 +492,8 @@ Definition visible_classes (l : list item) : list item := filter (fun it => negb
 Definition declares_no_test_here (l : list item) : bool :=
   match flat_map (declared_item []) (filter is_test (dedupe_last l)) with [] => true | _ => false end.
 Definition item_name (it : item) : str := match it with ITest _ d => test_name d | IClass _ c _ => class_name c end.
+Definition item_meta (it : item) : meta := match it with ITest _ _ => no_meta | IClass _ c _ => declared_class_meta c end.
+Definition item_node (it : item) : pnode := (item_name it, item_meta it).
 (* "a module whose only class bears its name": no SUITE, no visible test function, exactly one visible class, same name *)
 Definition collapses (m : mdecl) : bool :=
   match m_suite m with
@@ -370,14 +501,14 @@ Definition collapses (m : mdecl) : bool :=
   | None => declares_no_test_here (m_items m) &&
             match visible_classes (m_items m) with [c] => str_eqb (item_name c) (m_file m) | _ => false end
   end.
-Definition declared_module (p : list str) (m : mdecl) : list (list str * tinfo) :=
+Definition declared_module (p : list pnode) (m : mdecl) : list (list pnode * tinfo) :=
   if mod_hidden m then []
   else if collapses m then declared_items p (m_items m)
-  else declared_items (p ++ [mod_name m]) (m_items m).
+  else declared_items (p ++ [(mod_name m, declared_mod_meta m)]) (m_items m).
 
 (* ------------------------------------------------------------------ exactness below a module *)
 Lemma flat_unfold : forall p name d r di h tg tests subs,
-  flat p (LSuite name d r di h tg tests subs) = map (fun t => (p ++ [name], t)) tests ++ flat_all (p ++ [name]) subs.
+  flat p (LSuite name d r di h tg tests subs) = map (fun t => (p ++ [(name, tg)], t)) tests ++ flat_all (p ++ [(name, tg)]) subs.
 Proof.
   intros. simpl. f_equal.
 Qed.
@@ -433,14 +564,14 @@ Proof.
   - rewrite IH. apply Permutation_app_swap_app.
 Qed.
 
-Definition class_part (p : list str) (it : item) : list (list str * tinfo) :=
+Definition class_part (p : list pnode) (it : item) : list (list pnode * tinfo) :=
   if is_class it then declared_item p it else [].
 
 Lemma expand_item_obs : forall p it, is_test it = true ->
   map obs_of (map (fun t => (p, t)) (expand_item it)) = declared_item p it.
 Proof.
   intros p [r d|r c b] H; [|discriminate]. simpl. unfold expand_test. destruct (hidden_of (t_cond d)); [reflexivity|].
-  rewrite !map_map. apply map_ext. intros [[n de] pa]. reflexivity.
+  rewrite !map_map. apply map_ext. intros [[n de] pa]. unfold obs_of, info_of, mk_info. simpl. rewrite loaded_props_spec. reflexivity.
 Qed.
 
 Lemma flat_all_concat_filter : forall p yss,
@@ -500,7 +631,7 @@ Proof.
     destruct (add_suites [] _) as [subs|e] eqn:Hs; simpl in H; [|discriminate].
     inversion H; subst. clear H. unfold class_part. simpl. unfold nh at 1. simpl.
     destruct (hidden_of (c_cond c)); simpl; [constructor|].
-    rewrite app_nil_r. fold (declared_items (p ++ [class_name c]) body).
+    rewrite app_nil_r, class_meta_spec. fold (declared_items (p ++ [(class_name c, declared_class_meta c)]) body).
     eapply body_exact; eauto.
 Qed.
 
@@ -525,7 +656,7 @@ Proof.
 Qed.
 
 Lemma class_suites_names : forall C yss, Forall (fun x => is_class x = true) C -> map load_class C = map Ok yss ->
-  map ls_name (filter nh (concat yss)) = map item_name (filter (fun it => negb (item_hidden it)) C).
+  map ls_node (filter nh (concat yss)) = map item_node (filter (fun it => negb (item_hidden it)) C).
 Proof.
   induction C as [|x C IH]; intros yss HF E; destruct yss as [|ys yss]; simpl in *; try discriminate; [reflexivity|].
   inversion E. inversion HF; subst. destruct x as [rk d|rk c body]; [discriminate|].
@@ -534,11 +665,12 @@ Proof.
   destruct (sequence _) as [loaded|e]; simpl in H0; [|discriminate].
   destruct (add_suites [] _) as [subs|e]; simpl in H0; [|discriminate].
   inversion H0; subst. simpl. unfold nh at 1. simpl. destruct (hidden_of (c_cond c)); simpl; rewrite (IH yss); auto.
+  unfold ls_node, item_node. simpl. rewrite class_meta_spec. reflexivity.
 Qed.
 
 Lemma load_body_exact : forall l tests subs, load_body l = Ok (tests, subs) ->
   (forall p, Permutation (map obs_of (map (fun t => (p, t)) tests ++ flat_all p subs)) (declared_items p l)) /\
-  Permutation (map ls_name subs) (map item_name (visible_classes l)) /\
+  Permutation (map ls_node subs) (map item_node (visible_classes l)) /\
   (tests = [] <-> declares_no_test_here l = true).
 Proof.
   unfold load_body. intros l tests subs H.
@@ -563,20 +695,23 @@ Proof.
       apply map_eq_nil in HP. apply map_eq_nil in HP. assumption.
 Qed.
 
-Definition merged_name (m : mdecl) : str := if collapses m then m_file m else mod_name m.
+(* the suite a visible module is loaded as: the module suite, or (single-class collapse) the suite of its only class *)
+Definition merged_node (m : mdecl) : pnode :=
+  if collapses m then match visible_classes (m_items m) with [x] => item_node x | _ => (m_file m, no_meta) end
+  else (mod_name m, declared_mod_meta m).
 
 Lemma load_module_exact : forall m s, load_module m = Ok s ->
   (forall p, Permutation (map obs_of (flat_all p (filter nh [s]))) (declared_module p m)) /\
-  ls_name s = merged_name m /\ ls_hidden s = mod_hidden m.
+  ls_node s = merged_node m /\ ls_hidden s = mod_hidden m.
 Proof.
   unfold load_module. intros m s H. destruct (load_body (m_items m)) as [[tests subs]|e] eqn:Hb; simpl in H; [|discriminate].
   destruct (load_body_wf _ _ _ Hb) as [_ [_ [_ [_ [Hvis _]]]]].
-  destruct (load_body_exact _ _ _ Hb) as [Hex [Hnames Htests]].
-  set (s0 := LSuite (mod_name m) (mod_desc m) (m_rank m) false (mod_hidden m) (mod_tags m) tests subs) in *.
+  destruct (load_body_exact _ _ _ Hb) as [Hex [Hnames Htests]]. rewrite mod_meta_spec in H.
+  set (s0 := LSuite (mod_name m) (mod_desc m) (m_rank m) false (mod_hidden m) (declared_mod_meta m) tests subs) in *.
   assert (Hplain : collapses m = false -> s = s0 ->
             (forall p, Permutation (map obs_of (flat_all p (filter nh [s]))) (declared_module p m)) /\
-            ls_name s = merged_name m /\ ls_hidden s = mod_hidden m).
-  { intros Hc Es. subst s. unfold merged_name, declared_module. rewrite Hc. simpl. split; [|split; reflexivity].
+            ls_node s = merged_node m /\ ls_hidden s = mod_hidden m).
+  { intros Hc Es. subst s. unfold merged_node, declared_module. rewrite Hc. simpl. split; [|split; reflexivity].
     intro p. unfold nh. simpl. destruct (mod_hidden m); simpl; [constructor|]. rewrite app_nil_r. apply Hex. }
   unfold collapses in *. unfold mod_hidden in *.
   destruct (m_suite m) as [sd|] eqn:Hsd; [apply Hplain; [reflexivity|inversion H; reflexivity]|].
@@ -589,10 +724,10 @@ Proof.
     apply map_eq_nil in Hnames. rewrite Hnames. reflexivity.
   - simpl in Hnames. apply Permutation_length_1_inv in Hnames.
     destruct (visible_classes (m_items m)) as [|x [|x' vc]] eqn:Hvc; simpl in Hnames; try discriminate.
-    inversion Hnames as [Hn]. rewrite Hn in *.
+    unfold item_node, ls_node in Hnames. inversion Hnames as [[Hn Hmeta]]. rewrite Hn in *.
     destruct (str_eqb (ls_name c) (m_file m)) eqn:Heq.
-    + inversion H; subst s. clear Hplain. unfold merged_name, declared_module, collapses, mod_hidden. rewrite Hsd, Hd, Hvc, Hn, Heq. simpl.
-      inversion Hvis as [|? ? Hc _]; subst. split; [|split; [apply str_eqb_eq; assumption|assumption]].
+    + inversion H; subst s. clear Hplain. unfold merged_node, declared_module, collapses, mod_hidden. rewrite Hsd, Hd, Hvc, Hn, Heq. simpl.
+      inversion Hvis as [|? ? Hc _]; subst. split; [|split; [unfold ls_node, item_node; rewrite Hn, Hmeta; reflexivity|assumption]].
       intro p. specialize (Hex p). simpl in Hex. unfold nh. rewrite Hc. simpl. exact Hex.
     + apply Hplain; [reflexivity|inversion H; reflexivity].
   - apply Hplain; [|inversion H; reflexivity]. apply Permutation_length in Hnames. rewrite !map_length in Hnames. simpl in Hnames.
@@ -603,12 +738,12 @@ Qed.
 Definition file_is (f : str) (m : mdecl) : bool := str_eqb (m_file m) f.
 (* what the sub-directory [x] of a directory holding [mods] declares under [p]: it belongs to the module of the same name
    (so it is hidden with it), or stands for a suite of its own *)
-Definition sub_spec (decl : list str -> dir -> list (list str * tinfo)) (p : list str) (mods : list mdecl) (x : dir) :=
+Definition sub_spec (decl : list pnode -> dir -> list (list pnode * tinfo)) (p : list pnode) (mods : list mdecl) (x : dir) :=
   match find (file_is (dir_name x)) mods with
-  | Some m => if mod_hidden m then [] else decl (p ++ [merged_name m]) x
-  | None => decl (p ++ [dir_name x]) x
+  | Some m => if mod_hidden m then [] else decl (p ++ [merged_node m]) x
+  | None => decl (p ++ [(dir_name x, no_meta)]) x
   end.
-Fixpoint declared_dir (p : list str) (d : dir) : list (list str * tinfo) :=
+Fixpoint declared_dir (p : list pnode) (d : dir) : list (list pnode * tinfo) :=
   match d with
   | Dir _ mods subs => flat_map (declared_module p) mods ++ flat_map (sub_spec declared_dir p mods) subs
   end.
@@ -618,7 +753,7 @@ Inductive names_ok : dir -> Prop :=
 | names_ok_intro : forall n mods subs, NoDup (map m_file mods) -> NoDup (map dir_name subs) -> Forall names_ok subs ->
                    names_ok (Dir n mods subs).
 
-Definition F (p : list str) (entries : list entry) : list (list str * tinfo) := map obs_of (flat_all p (map snd entries)).
+Definition F (p : list pnode) (entries : list entry) : list (list pnode * tinfo) := map obs_of (flat_all p (map snd entries)).
 
 Lemma F_app : forall p a b, F p (a ++ b) = F p a ++ F p b.
 Proof. intros. unfold F, flat_all. rewrite map_app, flat_map_app, map_app. reflexivity. Qed.
@@ -656,7 +791,7 @@ Proof.
 Qed.
 
 Lemma flat_with_subs : forall p s extra,
-  flat p (with_subs s (ls_subs s ++ extra)) = flat p s ++ flat_all (p ++ [ls_name s]) extra.
+  flat p (with_subs s (ls_subs s ++ extra)) = flat p s ++ flat_all (p ++ [ls_node s]) extra.
 Proof.
   intros p [n d r di h tg tests subs] extra. simpl with_subs. rewrite !flat_unfold. simpl ls_subs. simpl ls_name.
   unfold flat_all. rewrite flat_map_app, app_assoc. reflexivity.
@@ -664,7 +799,7 @@ Qed.
 
 (* invariant of the dict [suites] during the loop over the sub-directories *)
 Definition entries_inv (mods : list mdecl) (entries : list entry) : Prop :=
-  (forall g s, In (Some g, s) entries -> exists m, find (file_is g) mods = Some m /\ ls_name s = merged_name m /\ mod_hidden m = false) /\
+  (forall g s, In (Some g, s) entries -> exists m, find (file_is g) mods = Some m /\ ls_node s = merged_node m /\ mod_hidden m = false) /\
   (forall m, In m mods -> mod_hidden m = false -> find_mod (m_file m) entries <> None).
 
 Lemma find_mod_app_none : forall f l e, find_mod f (l ++ [(None, e)]) = find_mod f l.
@@ -749,7 +884,7 @@ Qed.
 Lemma load_modules_exact : forall p mods loaded, load_modules mods = Ok loaded ->
   Permutation (F p (entries_of loaded)) (flat_map (declared_module p) mods) /\
   map fst loaded = map m_file mods /\
-  Forall2 (fun m ps => ls_name (snd ps) = merged_name m /\ ls_hidden (snd ps) = mod_hidden m) mods loaded.
+  Forall2 (fun m ps => ls_node (snd ps) = merged_node m /\ ls_hidden (snd ps) = mod_hidden m) mods loaded.
 Proof.
   intro p. induction mods as [|m mods IH]; simpl; intros loaded H.
   - inversion H; subst. repeat split; constructor.
@@ -767,11 +902,11 @@ Qed.
 
 Lemma entries_of_inv : forall mods loaded, NoDup (map m_file mods) ->
   map fst loaded = map m_file mods ->
-  Forall2 (fun m ps => ls_name (snd ps) = merged_name m /\ ls_hidden (snd ps) = mod_hidden m) mods loaded ->
+  Forall2 (fun m ps => ls_node (snd ps) = merged_node m /\ ls_hidden (snd ps) = mod_hidden m) mods loaded ->
   entries_inv mods (entries_of loaded).
 Proof.
   intros mods loaded ND Hk HF.
-  assert (Hzip : forall g s, In (g, s) loaded -> exists m, In m mods /\ m_file m = g /\ ls_name s = merged_name m /\ ls_hidden s = mod_hidden m).
+  assert (Hzip : forall g s, In (g, s) loaded -> exists m, In m mods /\ m_file m = g /\ ls_node s = merged_node m /\ ls_hidden s = mod_hidden m).
   { clear ND. revert loaded Hk HF. induction mods as [|m mods IH]; intros loaded Hk HF g s Hin;
       inversion HF as [|m0 y mods' l' Hy HF']; subst; [destruct Hin|].
     simpl in Hk. inversion Hk as [[Hk1 Hk2]]. destruct Hin as [Hin|Hin].
@@ -848,4 +983,46 @@ Lemma loaded_subset_declared : forall rank0 root suites, names_ok (prepared true
 Proof.
   intros rank0 root suites Hn H path t Hin. eapply Permutation_in; [apply load_exact; eassumption|].
   change (path, info_of t) with (obs_of (path, t)). apply in_map. assumption.
+Qed.
+
+(* ------------------------------------------------------------------ metadata, stated locally *)
+Lemma expand_test_metadata : forall rank d t, In t (expand_test rank d) ->
+  lt_tags t = t_tags d /\ lt_props t = declared_props (t_props d) /\ lt_links t = declared_links (t_links d) /\
+  lt_disabled t = t_disabled d /\ lt_rank t = rank.
+Proof.
+  intros rank d t H. unfold expand_test in H. destruct (hidden_of (t_cond d)); [destruct H|].
+  apply in_map_iff in H. destruct H as [x [E _]]. subst t. simpl. rewrite loaded_props_spec. repeat split; reflexivity.
+Qed.
+
+Lemma load_class_meta : forall rank c body r, load_class (IClass rank c body) = Ok r ->
+  exists s, r = [s] /\ ls_name s = class_name c /\ ls_meta s = declared_class_meta c.
+Proof.
+  intros rank c body r H. rewrite load_class_unfold in H.
+  destruct (add_tests [] (load_tests_of body)) as [tests|e]; simpl in H; [|discriminate].
+  destruct (sequence _) as [loaded|e]; simpl in H; [|discriminate].
+  destruct (add_suites [] _) as [subs|e]; simpl in H; [|discriminate].
+  inversion H; subst. eexists. split; [reflexivity|]. simpl. split; [reflexivity|apply class_meta_spec].
+Qed.
+
+Lemma collapses_single : forall m, collapses m = true -> exists rank c body, visible_classes (m_items m) = [IClass rank c body].
+Proof.
+  intros m H. unfold collapses in H. destruct (m_suite m); [discriminate|]. apply andb_true_iff in H. destruct H as [_ H].
+  destruct (visible_classes (m_items m)) as [|x [|x' l]] eqn:E; try discriminate.
+  assert (Hin : In x (visible_classes (m_items m))) by (rewrite E; left; reflexivity).
+  unfold visible_classes in Hin. apply filter_In in Hin. destruct Hin as [Hin _]. apply filter_In in Hin. destruct Hin as [_ Hc].
+  destruct x as [r d|r c b]; [discriminate|]. eauto.
+Qed.
+
+Lemma load_module_meta : forall m s, load_module m = Ok s -> collapses m = false -> ls_meta s = declared_mod_meta m.
+Proof.
+  intros m s H Hc. destruct (load_module_exact _ _ H) as [_ [Hn _]]. unfold merged_node in Hn. rewrite Hc in Hn.
+  unfold ls_node in Hn. inversion Hn. reflexivity.
+Qed.
+
+Lemma load_module_meta_collapsed : forall m s, load_module m = Ok s -> collapses m = true ->
+  exists rank c body, visible_classes (m_items m) = [IClass rank c body] /\ ls_meta s = declared_class_meta c.
+Proof.
+  intros m s H Hc. destruct (load_module_exact _ _ H) as [_ [Hn _]]. unfold merged_node in Hn. rewrite Hc in Hn.
+  destruct (collapses_single _ Hc) as [rank [c [body E]]]. rewrite E in Hn. exists rank, c, body. split; [exact E|].
+  unfold ls_node, item_node in Hn. inversion Hn. reflexivity.
 Qed.
